@@ -103,6 +103,11 @@ func runSeq(owners ...string) func(t *testing.T, scAny any, trace bool) *Outcome
 		o := &Outcome{}
 		res := Bubble(t, sc.Sched.config(trace), nil, func() {
 			simrt.Event("scenario %x", simrt.Hash(hashBytes(mustJSON(sc))))
+			if len(sc.Faults) > 0 {
+				simrt.Probe("run_class.fault_injecting")
+			} else {
+				simrt.Probe("run_class.fault_free")
+			}
 			r := runSeqWorld(o, sc, sc.Cfg)
 			if r == nil {
 				return
